@@ -1,10 +1,13 @@
 #!/bin/bash
 # run_driver.sh <repo> <pkgdir> <driver-file> <TestName>  - injects the driver with -overlay
+# (tests whose name contains Race run under the race detector)
 export GOFLAGS=-mod=mod GOPROXY=off GOSUMDB=off GOTOOLCHAIN=local
 REPO="$1"; PKG="$2"; DRV="$3"; TEST="$4"
 ov=$(mktemp /tmp/replay-ov-XXXXXX.json)
 printf '{"Replace": {"%s/%s/zz_replay_driver_test.go": "%s"}}\n' "$REPO" "$PKG" "$DRV" > "$ov"
-(cd "$REPO" && ulimit -v 8000000 && go test -overlay "$ov" -vet=off -count=1 -timeout 90s -run "^($TEST)\$" "./$PKG" 2>&1)
+RACE=""; LIMIT="ulimit -v 8000000"
+case "$TEST" in *Race*) RACE="-race"; LIMIT="true";; esac   # the race detector needs a large address space
+(cd "$REPO" && $LIMIT && go test $RACE -overlay "$ov" -vet=off -count=1 -timeout 120s -run "^($TEST)\$" "./$PKG" 2>&1)
 rc=$?
 rm -f "$ov"
 exit $rc
